@@ -12,6 +12,8 @@ Exit codes: 0 held / 1 violation (VIOLATION line) / 2 undecided / 3 checker erro
 import sys, os, json, time, importlib, hashlib, traceback, multiprocessing, inspect, contextlib, textwrap, re
 from . import core as S
 
+REPO = os.path.realpath(os.environ.get('VERIF_REPO', '/repo'))
+
 ROOT = os.path.dirname(os.path.dirname(os.path.abspath(__file__)))
 
 
@@ -92,7 +94,7 @@ def _rt_records(t):
         raise
     except Exception as e:
         tb = traceback.extract_tb(e.__traceback__)
-        if tb and os.path.realpath(tb[-1].filename).startswith('/repo/'):
+        if tb and os.path.realpath(tb[-1].filename).startswith(REPO + '/'):
             yield dict(name='rt:no-unexpected-exception-in-repository-code', ok=False, witness=dict(args=repr(t.args)[:300]),
                        detail='%s: %s\n%s' % (type(e).__name__, e, ''.join(traceback.format_exception(type(e), e, e.__traceback__, limit=-6))))
         else:
@@ -256,7 +258,7 @@ def _genuine_failure(name, c):
         return True
     for w in c.get('witnesses', []):
         files = re.findall(r'File "([^"]+)"', str(w.get('detail', '')))
-        if files and ('/evidence/mutants/' in files[-1] or files[-1].startswith('/repo/')):
+        if files and ('/evidence/mutants/' in files[-1] or files[-1].startswith(REPO + '/')):
             return True
     return False
 
@@ -458,7 +460,7 @@ def main(argv=None):
         trusted_base=list(getattr(mod, 'ASSUMPTIONS', [])) + ['external-assumed: %s (%s)' % kv for kv in sorted(external.items())],
         explanation=expl, samples=samples, exhaustive=False,
         functions_under_contract=list(getattr(mod, 'FUNCTIONS', [])),
-        source_sha256={os.path.relpath(f, '/repo'): file_sha(f) for f in files},
+        source_sha256={os.path.relpath(f, REPO): file_sha(f) for f in files},
         lemmas=list(getattr(mod, 'LEMMAS', [])),
         tasks=len(tasks), paths=n_paths, solver_queries=queries, solver_s=round(solver_s, 2), backends=backends,
         sentinels=sent_report, undecided=undecided[:20], engine_errors=errors[:20], vacuity=vacuity[:20], unbound_contracts=unbound[:20],
